@@ -205,7 +205,14 @@ int main(int argc, char** argv) {
         u16 exp = g.pick(kExp);
         if (exp == ((pc0 + 1) & 0xFFFF) || exp == (pc0 & 0xFFFF))
             exp ^= 0x0100;
-        int bad_second = 0, bad_next = 0, ran = 0;
+        // What "consumes a second word" means is decided semantically, not by the shape of the access log (an interpreter
+        // may prefetch, re-read or cache program words - instruction fetch has no side effects):
+        //   expanded opcode     : the word at pc+1 must be read at some point of the step (it cannot be an operand otherwise),
+        //                         pc must not end up at pc+1, and the following step must not execute from pc+1
+        //   not expanded opcode : the step must be INDEPENDENT of the word at pc+1 (same final state and same writes for two
+        //                         different words there)
+        // Each clause must fail from two independent states before it is reported (a movp may legitimately read pc+1).
+        int bad_second = 0, bad_next = 0, bad_indep = 0, ran = 0;
         std::string detail;
         for (int rep = 0; rep < 2; ++rep) {
             CaseState s = fetch_state(g, pc0);
@@ -216,49 +223,76 @@ int main(int argc, char** argv) {
             m.prog(pc0 + 2, 0); // nop
             RunResult r1 = m.run(1);
             auto log1 = m.log();
-            if (log1.empty() || log1[0].write || log1[0].addr != pc0) {
-                ctx.violation("fetch:first", fmt("opcode %04x: first access is not the opcode fetch at %05x", op, pc0), op);
-                break;
+            bool first = false, second = false;
+            for (auto& a : log1) {
+                first |= !a.write && a.addr == pc0;
+                second |= !a.write && a.addr == pc0 + 1;
             }
-            bool second = log1.size() >= 2 && !log1[1].write && log1[1].addr == pc0 + 1;
+            if (first)
+                ctx.count("opcode_fetch_seen_in_log");
             if (r1.outcome != OK) {
                 ctx.count(std::string("fetchcheck_skipped_") + outcome_name(r1.outcome));
                 // the second word is fetched before dispatch, so it is still observable
-                if (second != iexp)
+                if (iexp && !second)
                     ++bad_second;
                 ++ran;
                 continue;
             }
             ++ran;
-            if (second != iexp) {
+            if (iexp && !second) {
                 ++bad_second;
-                detail = fmt("second access %s", log1.size() >= 2 ? fmt("%s%05x", log1[1].write ? "W" : "R", log1[1].addr).c_str() : "none");
+                detail = "the word at pc+1 is never read";
             }
+            CaseState after1 = m.capture();
             u32 pc1 = m.core.regs.pc;
             if (iexp && pc1 == pc0 + 1)
                 ++bad_next;
             if (iexp) {
-                // second step: the operand word must not be fetched as an instruction
-                RunResult r2 = m.run(1);
-                (void)r2;
-                auto& log2 = m.log();
-                if (!log2.empty() && !log2[0].write && log2[0].addr == pc0 + 1 && pc1 != pc0 + 1)
-                    ++bad_next;
+                // (that the operand word is not executed as an instruction is the pc clause above: the next step starts at pc1)
                 ctx.count("second_step_observed");
+            } else {
+                // independence twin
+                std::vector<MemAccess> w1;
+                for (auto& a : log1)
+                    if (a.write)
+                        w1.push_back(a);
+                m.clean();
+                m.load(s);
+                m.prog(pc0, op);
+                m.prog(pc0 + 1, (u16)(exp ^ 0x5A5A));
+                m.prog(pc0 + 2, 0);
+                RunResult r1b = m.run(1);
+                CaseState after1b = m.capture();
+                std::vector<MemAccess> w2;
+                for (auto& a : m.log())
+                    if (a.write)
+                        w2.push_back(a);
+                bool same = r1b.outcome == r1.outcome && Diff(after1, after1b).empty() && w1.size() == w2.size();
+                for (size_t i = 0; same && i < w1.size(); ++i)
+                    same = w1[i].addr == w2[i].addr && w1[i].value == w2[i].value;
+                ctx.count("independence_twins");
+                if (!same) {
+                    ++bad_indep;
+                    detail = "state after the step depends on the word at pc+1: " + Diff(after1, after1b);
+                }
             }
         }
         if (ran == 2) {
             if (op % 4099 == (u32)ctx.shard)
                 ctx.sample(JObj().hexs("opcode", op).str("form", e.form.str()).num("second_word_needed", iexp).str("text", join(tok))
-                               .hexs("start", pc0).hexs("second_word", exp).num("fetch_mismatches", bad_second).done(), 2);
+                               .hexs("start", pc0).hexs("second_word", exp).num("fetch_mismatches", bad_second + bad_indep).done(), 2);
             ctx.count("fetch_observed");
             ctx.seen("nt", e.form.name);
             if (iexp)
                 ctx.count("expanded_opcodes");
             if (bad_second == 2)
                 ctx.violation(fmt("length:fetch:%s", e.form.name),
-                              fmt("opcode %04x: interpreter %s the second program word but the matcher says expanded=%d (%s)",
-                                  op, iexp ? "does not read" : "reads", iexp, detail.c_str()),
+                              fmt("opcode %04x: the matcher says it takes a second word, but the interpreter never reads the word at pc+1 (%s)", op, detail.c_str()),
+                              op);
+            if (bad_indep == 2)
+                ctx.violation(fmt("length:fetch:%s", e.form.name),
+                              fmt("opcode %04x: the matcher says it is a one-word instruction, but its effect depends on the following program word (%s)", op,
+                                  detail.c_str()),
                               op);
             if (bad_next == 2)
                 ctx.violation(fmt("length:operand-executed:%s", e.form.name),
